@@ -34,3 +34,4 @@ import TFV.Properties.Src.MemoryUpdate
 #print axioms TFV.Properties.Src.MemoryUpdate.C15_src_shaga_update_u_composed
 #print axioms TFV.Properties.Src.MemoryUpdate.C15_src_shaga_randn
 #print axioms TFV.Properties.Src.MemoryUpdate.C15_src_shaga_randn_range
+#print axioms TFV.Properties.Src.MemoryUpdate.C15_src_shaga_randc
